@@ -232,7 +232,18 @@ fn columns_of(std: &StdForm, name: &str) -> Option<(usize, Option<usize>)> {
 }
 
 pub fn check_model(spec: &LmSpec, l: &mut Local) {
-    let lm = spec.to_rooc();
+    check_model_with(spec, spec.to_rooc(), l);
+    // the same model with its domain map in the opposite order of its columns (compiled models keep the
+    // declaration order in the map and sort the columns): only worth a second pass when the kinds differ; done for models with at most one row
+    if spec.vars.len() >= 2 && spec.rows.len() <= 1 && spec.vars.iter().any(|v| v.1 != spec.vars[0].1) {
+        let (obj, ot, offset, cons, vars, dom) = spec.to_rooc().into_parts();
+        let reversed: indexmap::IndexMap<_, _> = dom.into_iter().rev().collect();
+        l.count("domain-map-in-reverse-order");
+        check_model_with(spec, rooc::LinearModel::new_from_parts(obj, ot, offset, cons, vars, reversed), l);
+    }
+}
+
+fn check_model_with(spec: &LmSpec, lm: rooc::LinearModel, l: &mut Local) {
     let case = |std: Option<&StdForm>| json!({"model": spec.show(), "standard": std.map(|s| s.show())});
     let std = match crate::core::catch(|| lm.clone().into_standard_form()) {
         Err(p) => {
@@ -427,7 +438,7 @@ pub fn check_model(spec: &LmSpec, l: &mut Local) {
 
 pub fn run(mut run: Run) -> ! {
     crate::core::silence_panics();
-    run.rule = "every member of finite continuous LinearModel families (every interleaving of 6 variable kinds x row relations x rhs signs x coefficients incl. zeros on free variables x min/max x offsets) is converted with into_standard_form(); distinct = canonical model text; non-trivial = feasible and bounded model with at least one split or bounded variable".into();
+    run.rule = "every member (built with add_variable, and again with the domain map in the opposite order of the columns when the variable kinds differ) of finite continuous LinearModel families (every interleaving of 6 variable kinds x row relations x rhs signs x coefficients incl. zeros on free variables x min/max x offsets) is converted with into_standard_form(); distinct = canonical model text; non-trivial = feasible and bounded model with at least one split or bounded variable".into();
     run.assume("exact rational LP oracle on both the original and the standard form; all menu values are dyadic so the conversion is exact and the comparison uses zero tolerance");
     run.assume("variable correspondence by the documented naming convention ($p<name> - $m<name>, otherwise same name); slack/surplus recovered from row residuals");
     for fam in families(run.quick()) {
